@@ -9,36 +9,51 @@
    MC: all histories up to MaxVer versions over a small key universe, checking the laws of the model.
    Gen: -simulate; the random choices of a step are drawn into the variable rnd one step ahead, the
         operation is a function of the state, the history is printed as JSON at depth GenDepth. *)
-EXTENDS AdtSet, TLC, Json
+EXTENDS AdtSet, AdtBag, AdtMap, AdtISet, AdtRAList, AdtQueue, AdtDeque, AdtSeq, TLC, Json
 CONSTANTS Kind, Keys, M, MaxVer, KLen, GenDepth
 VARIABLES ver, live, hist, rnd, tick
 vars == <<ver, live, hist, rnd, tick>>
 
-Table == CASE Kind = "set" -> SetTable
-Canon(x) == CASE Kind = "set" -> SetCanon(x)
-WF(c) == CASE Kind = "set" -> SetWF(c)
-From(c) == CASE Kind = "set" -> SetFrom(c)
-TypeOK(x) == CASE Kind = "set" -> SetTypeOK(x, Keys)
-Norm(o, s) == CASE Kind = "set" -> SetNorm(o, s)
-KindPre(o, s) == CASE Kind = "set" -> SetPre(o, s, M)
-KindEval(o, s) == CASE Kind = "set" -> SetEval(o, s, M)
-Laws(s, lv) == CASE Kind = "set" -> SetLaws(s, lv, M)
+IsSeqKind == Kind \in {"ralist", "queue", "deque", "seq"}
+Table == CASE Kind = "set" -> SetTable [] Kind = "bag" -> BagTable [] Kind = "map" -> MapTable [] Kind = "iset" -> ISetTable
+           [] Kind = "ralist" -> RATable [] Kind = "queue" -> QTable [] Kind = "deque" -> DQTable [] Kind = "seq" -> SeqTable
+Canon(x) == CASE Kind = "set" -> SetCanon(x) [] Kind = "bag" -> BagCanon(x) [] Kind = "map" -> MapCanon(x)
+              [] Kind = "iset" -> ISetCanon(x) [] OTHER -> x
+WF(c) == CASE Kind = "set" -> SetWF(c) [] Kind = "bag" -> BagWF(c, Keys) [] Kind = "map" -> MapWF(c)
+           [] Kind = "iset" -> ISetWF(c) [] OTHER -> TRUE
+From(c) == CASE Kind = "set" -> SetFrom(c) [] Kind = "bag" -> BagFrom(c, Keys) [] Kind = "map" -> MapFrom(c)
+             [] Kind = "iset" -> ISetFrom(c) [] OTHER -> c
+TypeOK(x) == CASE Kind = "set" -> SetTypeOK(x, Keys) [] Kind = "bag" -> BagTypeOK(x, Keys) [] Kind = "map" -> MapTypeOK(x, Keys)
+               [] Kind = "iset" -> ISetTypeOK(x) [] OTHER -> x \in Seq(Int)
+Norm(o, s) == CASE Kind = "set" -> SetNorm(o, s) [] Kind = "bag" -> BagNorm(o, s) [] Kind = "map" -> MapNorm(o, s, M)
+                [] Kind = "iset" -> ISetNorm(o, s) [] Kind = "ralist" -> RANorm(o, s) [] Kind = "queue" -> QNorm(o, s)
+                [] Kind = "deque" -> DQNorm(o, s) [] Kind = "seq" -> SeqNorm(o, s)
+KindPre(o, s) == CASE Kind = "set" -> SetPre(o, s, M) [] Kind = "bag" -> BagPre(o, s) [] Kind = "map" -> MapPre(o, s)
+                   [] Kind = "iset" -> ISetPre(o, s) [] Kind = "ralist" -> RAPre(o, s) [] Kind = "queue" -> QPre(o, s)
+                   [] Kind = "deque" -> DQPre(o, s) [] Kind = "seq" -> SeqPre(o, s)
+KindEval(o, s) == CASE Kind = "set" -> SetEval(o, s, M) [] Kind = "bag" -> BagEval(o, s, M, Keys) [] Kind = "map" -> MapEval(o, s, M)
+                    [] Kind = "iset" -> ISetEval(o, s) [] Kind = "ralist" -> RAEval(o, s, M) [] Kind = "queue" -> QEval(o, s, M)
+                    [] Kind = "deque" -> DQEval(o, s, M) [] Kind = "seq" -> SeqEval(o, s, M)
+Laws(s, lv) == CASE Kind = "set" -> SetLaws(s, lv, M) [] Kind = "bag" -> BagLaws(s, lv, M, Keys) [] Kind = "map" -> MapLaws(s, lv, M)
+                 [] Kind = "iset" -> ISetLaws(s, lv) [] Kind = "ralist" -> RALaws(s, lv, M) [] Kind = "queue" -> QLaws(s, lv, M)
+                 [] Kind = "deque" -> DQLaws(s, lv, M) [] Kind = "seq" -> SeqLaws(s, lv, M)
 
 Peek(v) == Op("peek", v, 0, 0, 0, <<>>)
 Eval(o, s) == IF o.op = "peek" THEN Res(<<>>, Canon(s[o.v])) ELSE KindEval(o, s)
-SigName(name) == IF name = "peek" THEN "v" ELSE Table[CHOOSE i \in DOMAIN Table : Table[i][1] = name][2]
+SigName(name) == IF name = "peek" THEN S_v ELSE Table[CHOOSE i \in DOMAIN Table : Table[i][1] = name][2]
 (* an operation may be applied: it names live versions and meets the library's own preconditions *)
 Pre(o, s, lv) == LET sig == SigName(o.op) IN
-                 /\ (UsesV(sig) => o.v \in lv) /\ (UsesW(sig) => o.w \in lv)
+                 /\ ("v" \in sig => o.v \in lv) /\ ("w" \in sig => o.w \in lv)
                  /\ KindPre(o, s)
 
 Init == ver = <<>> /\ live = {} /\ hist = <<>> /\ rnd = <<>> /\ tick = 0
-Apply(o) == LET r == Eval(o, ver)
-                n == Len(ver)
+Apply(o) == \E r \in {Eval(o, ver)} :      \* (bound by a quantifier so that TLC evaluates it once)
+            LET n == Len(ver)
                 U(i) == {j \in DOMAIN r.upd : r.upd[j][1] = i}
-            IN /\ ver' = [i \in 1..(n + Len(r.new)) |->
-                            IF i > n THEN r.new[i - n]
-                            ELSE IF U(i) # {} THEN r.upd[CHOOSE j \in U(i) : TRUE][2] ELSE ver[i]]
+            IN /\ ver' = (IF r.upd = <<>> THEN ver \o r.new
+                          ELSE [i \in 1..(n + Len(r.new)) |->
+                                  IF i > n THEN r.new[i - n]
+                                  ELSE IF U(i) # {} THEN r.upd[CHOOSE j \in U(i) : TRUE][2] ELSE ver[i]])
                /\ live' = (live \ r.kill) \cup ((n + 1)..(n + Len(r.new)))
 
 (* ---------------- MC ---------------- *)
@@ -76,10 +91,10 @@ PickOp(rn, s, lv) ==
                   ELSE IF r % 2 = 0 THEN lvs[nl - ((r \div 2) % (IF nl < 4 THEN nl ELSE 4))]
                   ELSE lvs[1 + ((r \div 2) % nl)]
       ks == [i \in 1..(rn[6] % (KLen + 1)) |-> KeyAt(rn[6 + i])]
-      raw == Norm(Op(e[1], IF UsesV(sig) THEN PickV(rn[2]) ELSE 0, IF UsesW(sig) THEN PickV(rn[3]) ELSE 0,
-                     IF UsesK(sig) THEN KeyAt(rn[4]) ELSE 0, IF UsesX(sig) THEN rn[5] % 1000 ELSE 0,
-                     IF UsesKs(sig) THEN ks ELSE <<>>), s)
-  IN IF (UsesV(sig) => nl > 0) /\ Pre(raw, s, lv) THEN raw
+      raw == Norm(Op(e[1], IF "v" \in sig THEN PickV(rn[2]) ELSE 0, IF "w" \in sig THEN PickV(rn[3]) ELSE 0,
+                     IF "k" \in sig THEN KeyAt(rn[4]) ELSE 0, IF "x" \in sig THEN rn[5] % 1000 ELSE 0,
+                     IF "s" \in sig THEN ks ELSE <<>>), s)
+  IN IF ("v" \in sig => nl > 0) /\ Pre(raw, s, lv) THEN raw
      ELSE IF nl > 0 /\ rn[5] % 2 = 0 THEN Peek(PickV(rn[2]))
      ELSE Op(Table[1][1], 0, 0, 0, 0, ks)
 GenInit == ver = <<>> /\ live = {} /\ hist = <<>> /\ tick = 0 /\ rnd = [i \in 1..NRnd |-> i * 7919]
@@ -87,5 +102,5 @@ GenNext == /\ tick' = tick + 1
            /\ rnd' = [i \in 1..NRnd |-> Rnd(1000003)]
            /\ LET o == PickOp(rnd, ver, live) IN Apply(o) /\ hist' = Append(hist, o)
 GenSpec == GenInit /\ [][GenNext]_vars
-Dump == (TLCGet("level") = GenDepth) => PrintT(<<"HIST", ToJson(hist)>>)
+Dump == (TLCGet("level") = GenDepth) => PrintT(<<"HIST", ToJson([h |-> hist, live |-> SortedSeq(live)])>>)
 =======================================================================
